@@ -12,7 +12,8 @@ Inductive xop :=
 | XBase (o : op)
 | XRenum (new_line start_line step : option Z)
 | XSaveLoad                               (* SAVE "F" : LOAD "F"  (tokenised format) *)
-| XMerge (linebufs : list (list Z)).      (* MERGE "F": the tokenised lines of the file, in file order *)
+| XMerge (linebufs : list (list Z))       (* MERGE "F": the tokenised lines of the file, in file order *)
+| XLoadAscii (linebufs : list (list Z)).  (* LOAD "F" of an ASCII file: erase, then merge every line of it *)
 
 (* Program.load for filetype B: erase(); bytecode.seek(1); bytecode.write(g.read()); rebuild_line_dict() *)
 Definition load_image (c : cfg) (bytes : list Z) : res prog :=
@@ -43,11 +44,15 @@ Definition xstep (c : cfg) (s : prog) (o : xop) : prog * Z :=
       | OutOfFuel => (s, 300)
       end
   | XSaveLoad =>
+      (* Program.load: `if code_start + bytecode.tell() > stack_start(): erase(); Out of memory` *)
+      if cs c + 1 + zlen (tl (code s) ++ [26]) >? limit c then (erase, 100 + err_OUT_OF_MEMORY)
+      else
       match load_image c (tl (code s) ++ [26]) with
       | Ok s' => (s', 0)
       | x => (s, status x)
       end
   | XMerge lbs => merge_from c s lbs
+  | XLoadAscii lbs => merge_from c erase lbs
   end.
 
 Fixpoint xtrace_from (c : cfg) (s : prog) (ops : list xop) : list Z * prog :=
@@ -64,7 +69,7 @@ Definition xrun (c : cfg) (ops : list xop) : prog := snd (xtrace_from c erase op
 Definition xops_wf (ops : list xop) : bool :=
   forallb (fun o => match o with
                     | XBase b => ops_wf [b]
-                    | XMerge lbs => ops_wf (map OStore lbs)
+                    | XMerge lbs | XLoadAscii lbs => ops_wf (map OStore lbs)
                     | _ => true
                     end) ops.
 
